@@ -336,7 +336,7 @@ func Gen(tier string, emit func(Case)) {
 				slots = append(slots, sl{i, s})
 			}
 		}
-		emitDeco := func(decos []gen.Deco, label string) {
+		emitDeco := func(decos []gen.Deco, label string, rawSlot ...string) {
 			src := gen.Render(toks, gen.Layout{Newline: true}, decos)
 			labels := make([]string, len(decos))
 			for i, d := range decos {
@@ -356,6 +356,9 @@ func Gen(tier string, emit func(Case)) {
 						labels[i] = sl0.Name + "/" + ck
 					}
 				}
+				if d.Role == "raw" && len(rawSlot) > 0 {
+					labels[i] = rawSlot[0] + "/" + ck
+				}
 			}
 			for _, ci := range decoConfs {
 				cf := DefaultConf()
@@ -370,6 +373,14 @@ func Gen(tier string, emit func(Case)) {
 		for _, s := range slots {
 			for k := range commentKinds {
 				emitDeco([]gen.Deco{{Index: s.idx, Text: commentText(k, 1), Role: s.slot.Role}}, s.slot.Name+"/"+commentKinds[k].name)
+			}
+			// an empty line before and/or after a comment at the same placeholder
+			for _, k := range []int{0, 2} {
+				cm := gen.Deco{Index: s.idx, Text: commentText(k, 1), Role: s.slot.Role}
+				bl := gen.Deco{Index: s.idx, Text: "\n\n", Role: "raw"}
+				emitDeco([]gen.Deco{bl, cm}, s.slot.Name+"/blank+"+commentKinds[k].name, s.slot.Name)
+				emitDeco([]gen.Deco{cm, bl}, s.slot.Name+"/"+commentKinds[k].name+"+blank", s.slot.Name)
+				emitDeco([]gen.Deco{bl, cm, bl}, s.slot.Name+"/blank+"+commentKinds[k].name+"+blank", s.slot.Name)
 			}
 			if s.slot.Role == "leading" {
 				// an empty line in front of the statement / declaration / case clause
